@@ -55,7 +55,7 @@ Lemma inv_perm_blist g l : Inv g -> Permutation (blist g) l -> Inv (set_blist g 
 Proof.
   intros I P. assert (Q : forall x, In x l <-> In x (blist g)).
   { intro x. split; apply Permutation_in; [apply Permutation_sym|]; exact P. }
-  constructor; gs; try apply I.
+  constructor; try apply I; gs.
   - eapply DL_perm; [exact P|apply I].
   - intros j H. rewrite !Q. apply (i_ends g I). exact H.
   - intros i H. apply (i_back g I). apply Q. exact H.
@@ -67,7 +67,7 @@ Lemma inv_perm_clist g l : Inv g -> Permutation (clist g) l -> Inv (set_clist g 
 Proof.
   intros I P. assert (Q : forall x, In x l <-> In x (clist g)).
   { intro x. split; apply Permutation_in; [apply Permutation_sym|]; exact P. }
-  constructor; gs; try apply I.
+  constructor; try apply I; gs.
   - eapply DL_perm; [exact P|apply I].
   - intros j H. apply (i_ends g I). apply Q. exact H.
   - intros i H k. rewrite (i_back g I i H k). split; intros [j [Hj R]]; exists j; (split; [apply Q; exact Hj|exact R]).
